@@ -81,8 +81,9 @@ vars == <<backend, mode, S, D, h, t, dev, rows, bad, k, out, ix>>
 (* ... and COLUMN labellings: the columns a, b named by strings (all kinds above), by the integers 0, 1 ("intcols") *)
 (* or by tuples, i.e. two-level MultiIndex columns ("tuplecols"); nothing in the design reads the labels either     *)
 (* "multits": a MultiIndex one level of which holds timestamps                                                        *)
-IxKinds(b, n) == IF b = "pandas" THEN (IF n >= 2 THEN {"unique", "dup", "multi", "multidup"} ELSE {"unique"}) \cup {"intcols", "tuplecols", "multits"}
-                 ELSE {"unique"}
+IxKinds(b, n, m) == IF b # "pandas" THEN {"unique"}
+                    ELSE IF n >= 3 /\ (m = "subsample" \/ Rich) THEN {"unique", "dup"}     \* three rows in the thorough tier: the two flat labellings
+                    ELSE (IF n >= 2 THEN {"unique", "dup", "multi", "multidup"} ELSE {"unique"}) \cup {"intcols", "tuplecols", "multits"}
 LabelOf(ixk, i) == IF ixk \in {"dup", "multidup"} THEN (i + 1) \div 2 ELSE i + 10
 DedupByLabel(ixk, rws) == {i \in rws : ~\E j \in rws : j < i /\ LabelOf(ixk, j) = LabelOf(ixk, i)}
 
@@ -91,7 +92,7 @@ Init ==
   /\ backend \in Backends /\ mode \in {"drop", "subsample"} /\ S \in Schemas(backend)
   /\ \E n \in 1..(IF mode = "drop" THEN MaxRows ELSE MaxRowsSub) : /\ D \in [a : [1..n -> ValsA], b : [1..n -> ValsB]]
                            /\ AtMostOneNull(D.a)          \* null-null duplicates: Series slice + DuplicateNullsNotReported
-                           /\ ix \in IxKinds(backend, n)
+                           /\ ix \in IxKinds(backend, n, mode)
                            (* which of two rows with one label survives the shipped de-duplication of a random sample depends  *)
                            (* on the seed: the as-shipped prediction is stated for head / tail selections only                 *)
                            /\ (IF mode = "subsample"
